@@ -14,14 +14,21 @@ package main
 // under lazy_cache_ttl, park the background refreshes at the upstream, run
 // other queries in between and then let the refreshes finish.
 //
+// Some layouts put a plugin in front of everything that answers certain names
+// itself and lets the sequence go on (hosts-like), so that rewriters and cache
+// run with a response already set for the client's own question.
+//
 // Oracle, for every response that is served to a client (sequence returned no
 // error and a response is set):
 //   - its question section is exactly the client's question;
 //   - the marker record it carries was issued by the upstream for the question
 //     the upstream has to be asked for this client question (harness model of the
 //     rewriters: a full-match table per redirect, lower-casing for the case
-//     wrapper) with the client's AD/CD/DO.
-// Nothing is required about CNAME records, TTLs, ids or hit ratios.
+//     wrapper) with the client's type, class and AD/CD/DO — or by the plugin in
+//     front for the client's own name / the name the cache sees for it.
+//
+// Nothing is required about CNAME records, TTLs, ids, hit ratios, or whether
+// the response of a failed chain is stored.
 
 import (
 	"context"
@@ -89,7 +96,8 @@ func b2i(b bool) int {
 //	            upstream returns an error) | "no-response" (the upstream itself fails)
 //	wait-stale  sleep until every entry stored so far with the short TTL has expired
 //	ask-stale   a client query that is expected to be a lazy hit; the background
-//	            refresh it starts is parked inside the upstream
+//	            refresh it starts is parked inside the upstream (Fail
+//	            "after-response": that refresh fails behind the upstream)
 //	release     let the parked refreshes finish and wait until they are done
 type chainStep struct {
 	Op   string  `json:"op"`
@@ -109,6 +117,7 @@ type chainCase struct {
 	Pre      []*rewriter `json:"rewriters_in_front_of_cache"`
 	Post     []*rewriter `json:"rewriters_behind_cache"`
 	Lazy     bool        `json:"lazy_cache_ttl_set"`
+	Hosted   []string    `json:"names_answered_by_a_plugin_in_front_of_everything,omitempty"`
 	ShortTTL []string    `json:"names_the_upstream_answers_with_ttl_1,omitempty"`
 	Procs    int         `json:"gomaxprocs,omitempty"`
 	Seed     int64       `json:"scenario_seed"`
@@ -187,6 +196,9 @@ func (c *chainCase) role(q chainQ) string {
 }
 
 func (c *chainCase) where() string {
+	if len(c.Hosted) > 0 {
+		return "response-set-in-front-of-" + strings.TrimPrefix(c.Layout, "hosts>")
+	}
 	switch {
 	case len(c.Pre) > 0 && len(c.Post) > 0:
 		return "rewriters-on-both-sides"
@@ -222,6 +234,7 @@ type upCall struct {
 	AskerRole  string `json:"-"`
 	Failed     string `json:"downstream_failure,omitempty"`
 	Background bool   `json:"background_refresh,omitempty"`
+	Hosts      bool   `json:"answered_by_the_plugin_in_front,omitempty"`
 }
 
 type chainUp struct {
@@ -235,6 +248,8 @@ type chainUp struct {
 	parked   chan int
 	bgActive atomic.Int32
 	bgDone   atomic.Int32
+	bgFail   map[string]bool // upstream-side names whose next background refresh fails behind the upstream
+	bgFailed atomic.Int32
 }
 
 func (u *chainUp) Exec(ctx context.Context, qCtx *query_context.Context) error {
@@ -286,13 +301,65 @@ func (u *chainUp) Exec(ctx context.Context, qCtx *query_context.Context) error {
 	return nil
 }
 
+// chainHosts stands for a plugin in front of everything that answers some
+// names itself (hosts, arbitrary, ...) and lets the sequence go on: the
+// rewriters and the cache then run with a response already set for the
+// client's own question.
+type chainHosts struct {
+	u      *chainUp
+	hosted map[string]bool
+}
+
+func (h chainHosts) Exec(ctx context.Context, qCtx *query_context.Context) error {
+	q := qCtx.Q()
+	if len(q.Question) != 1 || !h.hosted[strings.ToLower(q.Question[0].Name)] {
+		return nil
+	}
+	p, _ := ctx.Value(planKey{}).(*plan)
+	qq := q.Question[0]
+	fl := b2i(q.AuthenticatedData) | b2i(q.CheckingDisabled)<<1
+	if o := q.IsEdns0(); o != nil && o.Do() {
+		fl |= 4
+	}
+	u := h.u
+	u.mu.Lock()
+	seq := len(u.calls)
+	call := upCall{Seq: seq, Name: qq.Name, Type: qq.Qtype, Class: qq.Qclass, Flags: strconv.Itoa(fl), Hosts: true, Background: p == nil}
+	call.Txt = fmt.Sprintf("%s%d:hosts:%s:%d:%d:%d", chainMarker, seq, qq.Name, qq.Qtype, qq.Qclass, fl)
+	if p != nil {
+		call.Asker, call.AskerRole = p.asker.String(), u.cc.role(p.asker)
+	}
+	u.calls = append(u.calls, call)
+	u.mu.Unlock()
+	r := new(dns.Msg)
+	r.SetReply(q)
+	r.Answer = []dns.RR{&dns.TXT{
+		Hdr: dns.RR_Header{Name: qq.Name, Rrtype: dns.TypeTXT, Class: dns.ClassINET, Ttl: 300},
+		Txt: []string{call.Txt},
+	}}
+	qCtx.SetResponse(r)
+	return nil
+}
+
 // chainPost stands for a post-processing plugin (ipset, nftset, ...) that can
 // fail after the response has been set.
-type chainPost struct{}
+type chainPost struct{ u *chainUp }
 
-func (chainPost) Exec(ctx context.Context, qCtx *query_context.Context) error {
-	if p, _ := ctx.Value(planKey{}).(*plan); p != nil && p.fail == "after-response" && qCtx.R() != nil {
+func (cp chainPost) Exec(ctx context.Context, qCtx *query_context.Context) error {
+	p, _ := ctx.Value(planKey{}).(*plan)
+	if p != nil && p.fail == "after-response" && qCtx.R() != nil {
 		return errors.New("c04 chain: post-processing failed (injected)")
+	}
+	if p == nil && qCtx.R() != nil && len(qCtx.Q().Question) == 1 { // background refresh
+		n := strings.ToLower(qCtx.Q().Question[0].Name)
+		cp.u.mu.Lock()
+		fail := cp.u.bgFail[n]
+		delete(cp.u.bgFail, n)
+		cp.u.mu.Unlock()
+		if fail {
+			cp.u.bgFailed.Add(1)
+			return errors.New("c04 chain: post-processing failed in a background refresh (injected)")
+		}
 	}
 	return nil
 }
@@ -354,7 +421,7 @@ func (l *logCounter) count(msg string) int {
 type chainStats struct {
 	scenarios, asks, served, fromCache, errs, noResp          int64
 	staleHits, parked, refreshSeenOwnKey, hitsStoredAfterFail int64
-	releaseTimeouts                                           int64
+	releaseTimeouts, bgFailed                                 int64
 }
 
 var (
@@ -389,7 +456,7 @@ func (c *chainCase) build() (*chainRun, error) {
 		}
 	}
 	r := &chainRun{cc: c, logs: &logCounter{n: map[string]int{}}, bgSeqFor: map[string]int{}}
-	r.up = &chainUp{cc: c, short: map[string]bool{}, open: make(chan struct{}), parked: make(chan int, 64)}
+	r.up = &chainUp{cc: c, short: map[string]bool{}, bgFail: map[string]bool{}, open: make(chan struct{}), parked: make(chan int, 64)}
 	for _, n := range c.ShortTTL {
 		r.up.short[strings.ToLower(n)] = true
 	}
@@ -398,7 +465,7 @@ func (c *chainCase) build() (*chainRun, error) {
 		args.LazyCacheTTL = 86400
 	}
 	r.cache = cache.NewCache(args, cache.Opts{Logger: zap.New(r.logs)})
-	plugins := map[string]any{"c04_cache": r.cache, "c04_upstream": r.up, "c04_post": chainPost{}}
+	plugins := map[string]any{"c04_cache": r.cache, "c04_upstream": r.up, "c04_post": chainPost{r.up}}
 	var rules []sequence.RuleArgs
 	add := func(side string, l []*rewriter) error {
 		for i, rw := range l {
@@ -418,6 +485,14 @@ func (c *chainCase) build() (*chainRun, error) {
 			rules = append(rules, sequence.RuleArgs{Exec: "$" + tag})
 		}
 		return nil
+	}
+	if len(c.Hosted) > 0 {
+		h := chainHosts{u: r.up, hosted: map[string]bool{}}
+		for _, n := range c.Hosted {
+			h.hosted[strings.ToLower(n)] = true
+		}
+		plugins["c04_hosts"] = h
+		rules = append(rules, sequence.RuleArgs{Exec: "$c04_hosts"})
 	}
 	if err := add("pre", c.Pre); err != nil {
 		return nil, err
@@ -525,11 +600,17 @@ func (r *chainRun) ask(step int, st chainStep) (servedSeq int, stale bool) {
 		rep.Inconclusive("chain %s: step %d served a response without a marker the upstream issued: %s", r.cc.Layout, step, strings.ReplaceAll(resp.String(), "\n", " | "))
 		return -1, false
 	}
-	if call.Name != r.cc.upName(q) || call.Type != q.Type || call.Class != q.Class || call.Flags != q.flagsText() {
+	nameOK := call.Name == r.cc.upName(q)
+	wantText := fmt.Sprintf("the upstream has to be asked %q", r.cc.upName(q))
+	if call.Hosts { // answered in front of the rewriters: for the client's name itself, or (stored) for the name the cache sees
+		nameOK = call.Name == q.Name || call.Name == r.cc.cacheName(q)
+		wantText = fmt.Sprintf("the plugin in front answers %q (the cache sees %q)", q.Name, r.cc.cacheName(q))
+	}
+	if !nameOK || call.Type != q.Type || call.Class != q.Class || call.Flags != q.flagsText() {
 		r.findings = append(r.findings, chainFinding{
 			key:     "chain-foreign-answer" + keySuffix,
-			what:    fmt.Sprintf("layout %s (%s): client query %s (step %d, role %s) was served the upstream's answer to [%q type=%d class=%d flags=%s]; for this client question the upstream has to be asked %q with flags %s", r.cc.Layout, where, q, step, r.cc.role(q), call.Name, call.Type, call.Class, call.Flags, r.cc.upName(q), q.flagsText()),
-			witness: wit(map[string]any{"answer_came_from_upstream_call": call}),
+			what:    fmt.Sprintf("layout %s (%s): client query %s (step %d, role %s) was served the answer given to [%q type=%d class=%d flags=%s]; for this client question %s with flags %s", r.cc.Layout, where, q, step, r.cc.role(q), call.Name, call.Type, call.Class, call.Flags, wantText, q.flagsText()),
+			witness: wit(map[string]any{"answer_came_from_call": call}),
 		})
 		return -1, false
 	}
@@ -538,6 +619,9 @@ func (r *chainRun) ask(step int, st chainStep) (servedSeq int, stale bool) {
 		src := "stored-by-" + call.AskerRole
 		if call.Background {
 			src = "stored-by-background-refresh"
+		}
+		if call.Hosts {
+			src += "-answered-in-front-of-the-rewriters"
 		}
 		if call.Failed != "" {
 			src += "-whose-chain-failed-" + call.Failed
@@ -561,7 +645,7 @@ func (r *chainRun) sourceOf(resp *dns.Msg) map[string]any {
 	r.up.mu.Lock()
 	defer r.up.mu.Unlock()
 	if seq >= 0 && seq < len(r.up.calls) && r.up.calls[seq].Txt == txt {
-		return map[string]any{"answer_came_from_upstream_call": r.up.calls[seq]}
+		return map[string]any{"answer_came_from_call": r.up.calls[seq]}
 	}
 	return nil
 }
@@ -613,8 +697,11 @@ func (r *chainRun) advance(stopAtWait bool) (waiting bool) {
 		case "ask-stale":
 			r.up.mu.Lock()
 			r.up.armed = true
+			if st.Fail == "after-response" { // the refresh this query starts fails behind the upstream
+				r.up.bgFail[strings.ToLower(r.cc.upName(*st.Q))] = true
+			}
 			r.up.mu.Unlock()
-			_, stale := r.ask(i, st)
+			_, stale := r.ask(i, chainStep{Op: st.Op, Q: st.Q})
 			if len(r.findings) > 0 {
 				continue
 			}
@@ -770,7 +857,13 @@ var chainLayouts = []string{
 	"lowercase>cache",
 	"lowercase>cache>redirect",
 	"cache",
+	// a plugin in front of everything already set a response (not used for the lazy scripts)
+	"hosts>redirect>cache",
+	"hosts>lowercase>cache",
+	"hosts>cache>redirect",
 }
+
+const chainLazyLayouts = 6
 
 // group is a list of names n0 -> n1 -> ... -> nk the rewriters walk through
 // (n0 is what the client asks, nk what the upstream is asked).
@@ -782,9 +875,10 @@ type chainUniverse struct {
 func (g *chainGen) universe(c *chainCase, nGroups int) chainUniverse {
 	var u chainUniverse
 	pre, post := &rewriter{Kind: "redirect"}, &rewriter{Kind: "redirect"}
+	base := strings.TrimPrefix(c.Layout, "hosts>")
 	for i := 0; i < nGroups; i++ {
 		a, m, t := g.name(g.someLen()), g.name(g.someLen()), g.name(g.someLen())
-		switch c.Layout {
+		switch base {
 		case "redirect>cache":
 			pre.Rules = append(pre.Rules, a+" "+t)
 			u.groups = append(u.groups, []string{a, t})
@@ -817,7 +911,7 @@ func (g *chainGen) universe(c *chainCase, nGroups int) chainUniverse {
 			u.groups = append(u.groups, []string{a})
 		}
 	}
-	if strings.HasPrefix(c.Layout, "lowercase>") {
+	if strings.HasPrefix(base, "lowercase>") {
 		c.Pre = append(c.Pre, &rewriter{Kind: "lowercase"})
 	}
 	if len(pre.Rules) > 0 {
@@ -828,6 +922,12 @@ func (g *chainGen) universe(c *chainCase, nGroups int) chainUniverse {
 	}
 	for i := 0; i < 3; i++ {
 		u.plains = append(u.plains, g.name(g.someLen()))
+	}
+	if base != c.Layout {
+		for _, grp := range u.groups {
+			c.Hosted = append(c.Hosted, strings.ToLower(grp[0]))
+		}
+		c.Hosted = append(c.Hosted, u.plains[0])
 	}
 	return u
 }
@@ -970,8 +1070,12 @@ func genLazyScenario(seed int64, layout string, procs int) *chainCase {
 	}
 	ask(mixed[0])
 	c.Steps = append(c.Steps, chainStep{Op: "wait-stale"})
-	for _, s := range slow {
-		c.Steps = append(c.Steps, chainStep{Op: "ask-stale", Q: s})
+	for i, s := range slow {
+		st := chainStep{Op: "ask-stale", Q: s}
+		if (i+int(seed&1))%2 == 1 {
+			st.Fail = "after-response"
+		}
+		c.Steps = append(c.Steps, st)
 	}
 	for _, q := range mixed {
 		ask(q)
@@ -1010,6 +1114,7 @@ func (st *chainStats) add(o chainStats) {
 	st.refreshSeenOwnKey += o.refreshSeenOwnKey
 	st.hitsStoredAfterFail += o.hitsStoredAfterFail
 	st.releaseTimeouts += o.releaseTimeouts
+	st.bgFailed += o.bgFailed
 }
 
 // startChainCase builds the sequence and runs the script up to its first
@@ -1042,6 +1147,7 @@ func finishChainCase(r *chainRun, replayKey string) int {
 		r.advance(false)
 	}
 	r.close()
+	r.st.bgFailed = int64(r.up.bgFailed.Load())
 	chainTot.add(r.st)
 	seen := map[string]bool{}
 	for _, f := range r.findings {
@@ -1057,7 +1163,7 @@ func finishChainCase(r *chainRun, replayKey string) int {
 		if len(calls) > 40 {
 			calls = calls[len(calls)-40:]
 		}
-		f.witness["upstream_calls_so_far_last_40"] = calls
+		f.witness["answers_issued_so_far_last_40"] = calls
 		cc.Witness = f.witness
 		key := pick(replayKey, f.key)
 		rep.Violation(key, f.what, replayCase{Key: key, Family: "chains/" + c.Layout, Via: "sequence", Lazy: c.Lazy, Chain: &cc,
@@ -1088,7 +1194,7 @@ func runChains(thorough bool, seed int64) {
 	}
 	var lazy []*chainCase
 	for k := 0; k < rounds; k++ {
-		for li, layout := range chainLayouts {
+		for li, layout := range chainLayouts[:chainLazyLayouts] {
 			procs := 0
 			if (li+k)%2 == 0 {
 				procs = 1
@@ -1129,6 +1235,7 @@ func chainEvidence() {
 	rep.Count("chain_lazy_refreshes_parked_at_upstream", chainTot.parked)
 	rep.Count("chain_lazy_refreshes_seen_under_their_own_question", chainTot.refreshSeenOwnKey)
 	rep.Count("chain_lazy_release_waits_timed_out", chainTot.releaseTimeouts)
+	rep.Count("chain_lazy_refreshes_failed_behind_the_upstream", chainTot.bgFailed)
 	cl := make([]string, 0, len(chainSeen))
 	for k := range chainSeen {
 		cl = append(cl, k)
@@ -1147,7 +1254,7 @@ func chainEvidence() {
 func replayChain(c *chainCase, key string) {
 	n := 1
 	if c.Lazy {
-		n = 20
+		n = 8
 	}
 	for i := 0; i < n; i++ {
 		cc := *c
